@@ -59,24 +59,43 @@ def runTyped (fS tyS srcS extS writtenS back1S back2S : String) : Result :=
         s!"typed {fS}({tyS}) {srcS}: impl [{writtenS} / {back1S} / {back2S}] model [{mws} / {mbs}] violates C13: key={c}"⟩
   | _, _, _ => ⟨"B", "cannot parse typed case"⟩
 
-/-- imp \t C10 \t <format> \t <ty> \t <Dyn v> \t <ext> \t <impl>: `ImportAtKey` into a declared column
+/-- Width in bytes of the binary form of a fixed-width type (bool: 1). -/
+def binWidth : Ty → Option Nat
+  | .int t => some (t.bits / 8)
+  | .f64 => some 8
+  | .f32 => some 4
+  | .bool => some 1
+  | _ => none
+
+/-- imp \t <C10|C11> \t <format> \t <ty> \t <Dyn v> \t <ext> \t <impl>: `ImportAtKey` into a declared column
     of a fresh row. Oracle (C10, last sentence): after a successful import the raw value of a
     column declared with raw type T is nil or a T. -/
-def runImp (fS tyS srcS extS implS : String) : Result :=
+def runImp (prop fS tyS srcS extS implS0 : String) : Result :=
+  -- C11 cases carry "ok <raw> => <re-emitted value>"
+  let (implS, reS) : String × Option String :=
+    match implS0.splitOn " => " with
+    | [a, b] => (a, some b)
+    | _ => (implS0, none)
   match Format.ofName? fS, Ty.ofName? tyS, Dyn.parse? srcS, parseOutcome implS with
   | some f, some ty, some v, some impl =>
     let env : Env := ⟨genTables, parseExt extS⟩
+    let mc := importCell env f ty v
     let m : Outcome Dyn :=
-      match importCell env f ty v with
+      match mc with
       | .ok (c, none) => .ok (Cells.raw c)
       | .ok (_, some e) => .err e
       | .err e => .err e
       | .panic s => .panic s
+    let mre : Option String :=
+      match mc with
+      | .ok (c, none) => some (match exportVal env c with | .ok e => e.show | _ => "ERR")
+      | _ => none
     let ms := showOutcome m
     let is := showOutcome impl
     let isPanic := match impl with | .panic _ => true | _ => false
     let abstain := ms == "err EXT"
-    let d := if isPanic then !(ms.startsWith "panic") else ms != is
+    let d := (if isPanic then !(ms.startsWith "panic") else ms != is) ||
+      (match reS, mre with | some a, some b => (Dyn.parse? a).map (·.show) != some b | _, _ => false)
     let isValue := match v with | .val _ => true | _ => false
     let p : Option String :=
       match impl with
@@ -84,14 +103,34 @@ def runImp (fS tyS srcS extS implS : String) : Result :=
       | .ok r =>
         if ty != .none && !isValue && !(r matches .nil) && Cast.typeOf r != ty then some "import-wrong-raw-type"
         else if (v matches .nil) && !(r matches .nil) then some "nil-imported-as-value"
+        else if prop == "C11" then
+          -- a binary column mapped to a fixed-width type accepts only well-sized payloads and re-emits
+          -- exactly the bytes it accepted
+          match f, binWidth ty, v with
+          | .binary, some w, .str s =>
+            match Base64.decode s with
+            | some b =>
+              if b.length != w then some "ill-sized-payload-accepted"
+              else if ty != .bool && ((reS.bind Dyn.parse?).map (·.show)) != some (Dyn.str s).show then some "accepted-bytes-not-re-emitted"
+              else none
+            | none => some "invalid-base64-accepted"
+          | _, _, _ => none
         else none
-      | .err _ => none
+      | .err _ =>
+        if prop == "C11" then
+          match f, binWidth ty, v with
+          | .binary, some w, .str s =>
+            match Base64.decode s with
+            | some b => if b.length == w then some "well-sized-payload-rejected" else none
+            | none => none
+          | _, _, _ => none
+        else none
     match d, p with
     | false, none => ⟨"S", ""⟩
     | true, none => if abstain then ⟨"X", "model abstains"⟩ else
-        ⟨"D", s!"imp {fS}({tyS}) {srcS}: impl [{is}] model [{ms}]"⟩
+        ⟨"D", s!"imp {fS}({tyS}) {srcS}: impl [{implS0}] model [{ms} => {mre}]"⟩
     | _, some c => ⟨(if d && !abstain then "D" else "") ++ "P",
-        s!"imp {fS}({tyS}) {srcS}: impl [{implS}] model [{ms}] violates C10: key={c}"⟩
+        s!"imp {fS}({tyS}) {srcS}: impl [{implS0}] model [{ms}] violates {prop}: key={c}"⟩
   | _, _, _, _ => ⟨"B", "cannot parse imp case"⟩
 
 /-- Did the exporter's `NewValue` swallow a failed cast for some declared column? -/
